@@ -393,6 +393,28 @@ def fifo_sync(twin: bool = False, real: bool = False):
         for x in data_sent:
             if data_sent.count(x) != 1:
                 return False
+        # once the two share a head: a valid transaction that spends an output created in a DOWNLOADED block, broadcast by the
+        # other node, reaches this node's pool and is passed on exactly once (signature checking is C01/C13's subject: stubbed)
+        if rc.current_chain_hash == served.current_chain_hash and rc.head().height > max(f, 0) and a > r:
+            top_cb = served.head().transactions[0]
+            dt, sg = env.dt, env.sg
+            tx = dt.Transaction([dt.Input(dt.OutputReference(top_cb.hash(), 0), sg.SECP256k1Signature(bytes([0x11]) * 64))],
+                                [dt.Output(1, sg.SECP256k1PublicKey(bytes([0xC2]) * 64))])
+            relayed: List[Any] = []
+            R.network_manager.broadcast_transaction = lambda t: relayed.append(t)
+            saved_sig = env.cons.validate_signature_for_spend
+            env.cons.validate_signature_for_spend = lambda *args, **kw: None
+            try:
+                for _ in range(2):
+                    try:
+                        pr.handle_message_received(ms.MessageHeader(1, 900, 0, 7), ms.DataMessage(ms.DATA_TRANSACTION, tx))
+                    except Exception:
+                        return False
+            finally:
+                env.cons.validate_signature_for_spend = saved_sig
+            pool = R.chain_manager.transaction_pool
+            if len(pool) != 1 or pool[0] is not tx or len(relayed) != 1:
+                return False
         return True
 
     return check_fifo, {"a": 4, "r": 2, "f": 1, "stored": False}
